@@ -145,6 +145,14 @@ FIRING = [
     ("smma-length-dependent-scale", "jesse/indicators/smma.py", "        out[t] = num / den\n", "        out[t] = num / den * (1 + 0.001 * n)\n", ["C13"]),
     ("fast-fill-before-clock", BT, "                            store.app.time = storable_temp_candle[0] + 60_000\n                            order.execute()\n", "                            order.execute()\n                            store.app.time = storable_temp_candle[0] + 60_000\n", ["C01", "C12"]),
     ("ma-slices-1d-series", "jesse/indicators/ma.py", "    if len(candles.shape) != 1:\n        candles = slice_candles(candles, sequential)\n", "    candles = slice_candles(candles, sequential)\n", ["C15"]),
+    ("mab-scalar-deviation", "jesse/indicators/mab.py", "        dev[fast_period - 1:] = np.sqrt(np.lib.stride_tricks.sliding_window_view(sq, fast_period).sum(axis=1) / fast_period)\n", "        dev[:] = np.sqrt(np.sum(sq[-fast_period:]) / fast_period)\n", ["C13"]),
+    ("lrsi-loop-from-zero", "jesse/indicators/lrsi.py", "    for i in range(1, l0.shape[0]):\n", "    for i in range(l0.shape[0]):\n", ["C13"]),
+    ("alligator-seed-at-zero", "jesse/indicators/alligator.py", "    result[length - 1] = init_val\n    for i in range(length, N):", "    result[0] = init_val\n    for i in range(1, N):", ["C13"]),
+    ("sar-first-value-kept", "jesse/indicators/sar.py", "    sar_values[0] = np.nan\n", "", ["C13"]),
+    ("emd-tracker-from-zero", "jesse/indicators/emd.py", "    for i in range(1, price.shape[0]):\n        peak[i] = peak[i - 1]", "    for i in range(price.shape[0]):\n        peak[i] = peak[i - 1]", ["C13"]),
+    ("squeeze-signal-short", "jesse/indicators/squeeze_momentum.py", "    for i in range(len(momentum)):\n        previous = momentum[i - 1] if i > 0 else np.nan\n", "    for i in range(1, len(momentum)):\n        previous = momentum[i - 1]\n", ["C14"]),
+    ("stoch-ma-on-nan-warm-up", "jesse/indicators/stochastic.py", "    k = _ma_after_warmup(stoch_val, slowk_period, slowk_matype)\n", "    k = ma(stoch_val, period=slowk_period, matype=slowk_matype, sequential=True)\n", ["C15"]),
+    ("tsf-period-one", "jesse/indicators/tsf.py", "        if len(source) < period or period < 2:\n", "        if len(source) < period:\n", ["C14"]),
     ("dna-append-multiple-empty", "jesse/libs/dynamic_numpy_array/__init__.py", "        if len(items) == 0:\n            return\n", "", ["C18"]),
     ("dna-delete-raw-index", "jesse/libs/dynamic_numpy_array/__init__.py", "        if index < 0:\n            index = (self.index + 1) - abs(index)\n        if index > self.index or index < 0:\n            raise IndexError('list assignment index out of range')\n\n        self.array = np.delete", "        self.array = np.delete", ["C18"]),
 ]
